@@ -383,9 +383,18 @@ func (k *Keeper) ApplyMessageWithConfig(ctx sdk.Context,
 		// take over the nonce management from evm:
 		// - reset sender's nonce to msg.Nonce() before calling evm.
 		// - increase sender's nonce by one no matter the result.
+		// The ante handler has already advanced the nonce once per message of the
+		// transaction, so with several messages from the same sender it can be ahead
+		// of msg.Nonce()+1: never move it backwards, or the later messages of the
+		// batch could be executed a second time.
+		nonceBefore := stateDB.GetNonce(sender.Address())
 		stateDB.SetNonce(sender.Address(), msg.Nonce())
 		ret, _, leftoverGas, vmErr = evm.Create(sender, msg.Data(), leftoverGas, msg.Value())
-		stateDB.SetNonce(sender.Address(), msg.Nonce()+1)
+		nonceAfter := msg.Nonce() + 1
+		if nonceBefore > nonceAfter {
+			nonceAfter = nonceBefore
+		}
+		stateDB.SetNonce(sender.Address(), nonceAfter)
 	} else {
 		ret, leftoverGas, vmErr = evm.Call(sender, *msg.To(), msg.Data(), leftoverGas, msg.Value())
 	}
